@@ -4,7 +4,7 @@ from .. import nodegen
 from . import _nodecommon
 
 ID = "C07"
-SUITES = ["rot", "node"]
+SUITES = ["rot", "node", "core"]
 LEAN_MODULES = ["VpnCloud.Proofs.C07", "VpnCloud.Proofs.C07More", "VpnCloud.Proofs.C07Session"]
 THEOREMS = ["VpnCloud.Rot.rotation_sync", "VpnCloud.Rot.inv_step", "VpnCloud.Rot.inv_init",
             "VpnCloud.Rot.inv_reachable", "VpnCloud.Rot.ids_interlock", "VpnCloud.Rot.sent_ids_bounded", "VpnCloud.Rot.only_latest_matters", "VpnCloud.Rot.receive_before_send", "VpnCloud.Rot.receive_before_send_y", "VpnCloud.Rot.latest_sent", "VpnCloud.Rot.lockstep_progress", "VpnCloud.Rot.lockstep_fresh", "VpnCloud.Rot.lockstep_new_keys", "VpnCloud.Rot.lockstep_fresh_keys"]
@@ -139,6 +139,11 @@ def random_schedule(rng, steps, name, reliable_tail=True):
 
 
 def gen(tier, rng):
+    # "fresh payload is always decryptable by the peer": a datagram that fails authentication (a late rotation message hitting a slot that holds
+    # another key by now, an altered datagram) must not move the replay window of the key in that slot
+    from .. import coregen as _coregen
+    for a in _coregen.ALGOS:
+        yield _coregen.poison_script(rng.fork("poison" + a), a, "poison-" + a)
     thorough = tier == "thorough"
     # node level: rotation as PeerCrypto::every_second drives it (cycle every 120 housekeeping calls, re-sends of unconfirmed proposals), with
     # everything in flight lost around one rotation second: the key change is only postponed, both sealing keys are replaced afterwards
